@@ -63,7 +63,7 @@ func caseHasDataGo(kids []*gen.SNode, body []*gen.DNode) bool {
 }
 
 func C09(c *core.Ctx) {
-	c.Rule = "generated schemas with several choices per container, choices nested in cases, shorthand cases, choices inside containers and inside a list entry; histories of 1–8 upserts that alternate between cases and switch back, from 3 source implementations into the reference store, reflection over maps and nodeutil.Node; after every step the complete target (re-read independently) is compared with the Lean model and the at-most-one-case invariant is checked on the real store; reads of stores that hold two cases are compared with the model's read. non-trivial = step whose source writes into a choice that already has another case selected; distinct by (schema, history prefix, implementations)"
+	c.Rule = "generated schemas with several choices per container, choices nested in cases, shorthand cases, choices inside containers and inside a list entry; histories of 1–8 upserts that alternate between cases and switch back, from 3 source implementations into the reference store, reflection over maps and nodeutil.Node; after every step the complete target (re-read independently) is compared with the Lean model and the at-most-one-case invariant is checked on the real store; reads of stores that hold two cases are compared with the model's read; steps into the reference store are repeated with one node callback of the target failing (every position for short steps, a sample otherwise): whatever the call returns the store must still satisfy the invariant. non-trivial = step whose source writes into a choice that already has another case selected; distinct by (schema, history prefix, implementations)"
 	c.Assumptions = append(c.Assumptions,
 		"the model covers leaves, containers and choices; lists enter only as the entry a history edits",
 		"Choose of the reference store = first case in sorted case-ident order holding data (the contract the theorems assume)")
@@ -153,6 +153,7 @@ func C09(c *core.Ctx) {
 				case "reflect-map":
 					src = nodeutil.ReflectChild(gen.ToMap(entryKids, edoc))
 				}
+				before := gen.Clone(tree) // refstore only: the target as it is before this step
 				sel := b.Root()
 				var ferr error
 				if inList {
@@ -200,6 +201,59 @@ func C09(c *core.Ctx) {
 				input := map[string]interface{}{"yang": y, "target_impl": tgtKind, "source_impl": srcKind, "history": append([]string{}, hist...),
 					"target_before": gen.Canon(entryKids, modelTgt, false), "target_after": canon, "error": fmt.Sprint(opErr), "invariant_on_store": inv}
 				pends = append(pends, pend{fmt.Sprintf("%s<-%s step %d upsert %s", tgtKind, srcKind, k+1, hist[len(hist)-1]), status + " " + canon + fmt.Sprint(" inv=", inv), entryKids, input, tgtKind, false, "edit"})
+				// the same step with a node callback failing part-way (reference store as target): whatever the call
+				// returns, the target must not end up holding two cases of a choice
+				if tgtKind == "refstore" && opErr == nil && ebody != nil && oneCaseGo(rootKids, before) && (k == steps-1 || r.Chance(30)) {
+					runFault := func(failAt int) (*refstore.Recorder, []*gen.DNode, error) {
+						rec := &refstore.Recorder{FailAt: failAt}
+						t := gen.Clone(before)
+						fb := node.NewBrowser(m, refstore.NewBody(rec, rootKids, t, "tgt:"))
+						var err error
+						err = safeDo(func() error {
+							fsel := fb.Root()
+							if inList {
+								saved := *rec
+								rec.FailAt = 0
+								s2, e := fb.Root().Find("ll=e1")
+								*rec = saved
+								if e != nil || s2 == nil {
+									return fmt.Errorf("entry: %v", e)
+								}
+								fsel = s2
+							}
+							return fsel.UpsertFrom(refstore.NewBody(nil, entryKids, gen.Clone(edoc), "src"))
+						})
+						return rec, t, err
+					}
+					rec0, _, e0 := runFault(0)
+					if e0 == nil {
+						K := len(rec0.Events)
+						for n, tried := 0, map[int]bool{}; n < c.N(12, 60) && n < K; n++ {
+							kf := 1 + r.Intn(K)
+							if K <= c.N(12, 60) {
+								kf = n + 1
+							}
+							if tried[kf] {
+								continue
+							}
+							tried[kf] = true
+							rec, t, ferr2 := runFault(kf)
+							c.Evaluations++
+							c.Count("faulted_step", errClass(ferr2))
+							if !oneCaseGo(rootKids, t) {
+								what := "?"
+								if kf-1 < len(rec.Events) {
+									what = rec.Events[kf-1].String()
+								}
+								if strings.HasPrefix(what, "choose tgt:") && ferr2 == nil && c.IsKnown("target-choose-error-swallowed", short(fmt.Sprintf("step %d, target callback %d (%s) failing", k+1, kf, what))) {
+									continue
+								}
+								c.Violation(core.Replay{Kind: "property-failure", Class: "two-cases-after-fault", Summary: fmt.Sprintf("step %d upsert %s with target callback %d/%d (%s) failing: the call returned %v and the target holds two cases of a choice: %s", k+1, hist[len(hist)-1], kf, K, what, ferr2, short(gen.Canon(rootKids, t, false))),
+									Input: map[string]interface{}{"yang": y, "history": append([]string{}, hist...), "target_before": gen.Canon(rootKids, before, false), "fail_at": kf, "failing_callback": what, "returned": fmt.Sprint(ferr2), "target_after": gen.Canon(rootKids, t, false)}})
+							}
+						}
+					}
+				}
 				if ebody == nil || opErr != nil {
 					break
 				}
